@@ -19,7 +19,7 @@ PROP = None
 ATTACH = ['', ' ', '\t', '\n', ' \n ', '  \t']
 DETACH = ['\n\n', '.', ' \n \n', '.x', '%c\n']
 BODIES_BRACE = ['x', 'a]b', 'a[b', '{y}', '', 'p q']
-BODIES_BRACKET = ['o', 'a{]}b', '']
+BODIES_BRACKET = ['o', 'a{]}b', '', 'a}b', '}']
 CONTEXTS = ['%s', '\\begin{a}%s\\end{a}', '{%s}', '$%s$', 'pre %s', '\\begin{itemize}\\item %s\\end{itemize}', '$$%s$$',
             '\\[%s\\]', '\\begin{equation}%s\\end{equation}', '$\\textbf{%s}$']
 
@@ -183,7 +183,7 @@ def c11_check(case):
 # ---------------------------------------------------------------------- C12
 MATHD = [('$', '$', TexMathModeEnv), ('$$', '$$', TexDisplayMathModeEnv), ('\\(', '\\)', TexMathEnv),
          ('\\[', '\\]', TexDisplayMathEnv)]
-MBODY = ['x', 'a+b', '\\alpha', '\\frac{a}{b}', '\\$', '(a', 'a)', '[a', 'a]', ')(', '\\left[x\\right)', '\\big(y', 'a \\in [0,1)',
+MBODY = ['', ' ', 'x', 'a+b', '\\alpha', '\\frac{a}{b}', '\\$', '(a', 'a)', '[a', 'a]', ')(', '\\left[x\\right)', '\\big(y', 'a \\in [0,1)',
          '\\cup [', 'x\\cap(', '{a}', '\\infty]', '\\notin (', 'a_{[}', 'A_{x\\in[0,1)}', 'y^{\\cup[a}', 'z_{\\cap[}',
          'u\\notin[a', '\\infty[']
 M_CTX = ['%s', 'pre %s post', '\\begin{a}%s\\end{a}', '{%s}', '\\x{%s}', '\\begin{itemize}\\item %s\\end{itemize}',
@@ -211,6 +211,8 @@ def c12_check(case):
         return out
     if kind[0] == 'env' and body[:1] in '[{':
         return out
+    if kind[0] == 'delim' and kind[1][0] == '$' and body == '':
+        return out          # `$$` is the display switch, not an empty inline region
     if kind[0] == 'env' and 'command{' in ctx:
         return out          # inside a definition \\begin/\\end open nothing (C02): only the delimiter kinds apply there
     try:
